@@ -25,12 +25,12 @@ F_ALL = 63
 
 
 class ExecCase(T.TreeCase):
-    def __init__(self, d, per, H, B, mode, nums, stop=2, flags=(63,)):
+    def __init__(self, d, per, H, B, mode, nums, stop=2, flags=(63,), rb=False):
         super().__init__(d, per, H, B, mode, nums)
-        self.stop, self.flags = stop, list(flags)
+        self.stop, self.flags, self.rb = stop, list(flags), rb
 
     def text(self):
-        return "exec %d %d %d %d %d %d %d %s %d %s" % (self.d, self.per, self.H, self.B, self.mode, self.stop, len(self.flags),
+        return ("execrb" if self.rb else "exec") + " %d %d %d %d %d %d %d %s %d %s" % (self.d, self.per, self.H, self.B, self.mode, self.stop, len(self.flags),
                                                      " ".join(map(str, self.flags)), self.N, " ".join(str(x) for p in self.nums for x in p))
 
 
@@ -40,7 +40,7 @@ def parse_exec_case(text):
     flags = [int(x) for x in t[8:8 + nf]]
     N = int(t[8 + nf])
     nums = [int(x) for x in t[9 + nf:]]
-    return ExecCase(d, per, H, B, mode, [nums[k * d:(k + 1) * d] for k in range(N)], stop, flags)
+    return ExecCase(d, per, H, B, mode, [nums[k * d:(k + 1) * d] for k in range(N)], stop, flags, t[0] == "execrb")
 
 
 class Call:
